@@ -355,9 +355,15 @@ def run(prog: Program, res: Result) -> None:  # noqa: PLR0912, PLR0915
     from checks.shared import check_render_for_item_isolation
 
     check_render_for_item_isolation(prog, res, "C01.R14")
+    res.rule("C01.R15", "the meaning of a construct does not depend on what ran before it: syntax-tree objects (Node and Expression classes) are never written after parsing - a `call` node that memoises how its arguments bind keeps the binding of the first macro it met, whatever macro that name means later")
+    from checks.shared import check_no_self_stores
+
+    check_no_self_stores(prog, res, "C01.R15", ("liquid2.ast.Node", "liquid2.expression.Expression"), "the node is shared by every render of the template and by every execution of the tag, so what one execution memoises (a binding, a resolved name, a computed table) is what the next one uses, whatever changed in between", 300)
 
     res.rule("C01.R13", "the Liquid string form of a value does not depend on where it is printed: every definition of to_liquid_string (the one used by output statements and filters, and the private copy used for `${…}` interpolation in template strings) is the same function after normalisation")
     _stringifier_twins_rule(prog, res)
+    res.rule("C01.R16", "a template string evaluates to text, whatever it interpolates and however many parts it has: every return of TemplateString.evaluate[_async] is `<sep>.join(<stringifier>(part) …)` - no short cut that hands back a part's raw value")
+    _template_string_is_text_rule(prog, res)
     res.rule("C01.R11", "a filter that searches with str.partition / str.rpartition reads 'found' from the separator slot, never from the head (rpartition) or tail (partition), which is also empty when the occurrence touches that end of the string")
     _partition_presence_rule(prog, res)
     res.rule("C01.R12", "the truncation filters (truncate, truncatewords and their helpers) agree on what fits: the input is returned when its measured length is <= the limit")
@@ -547,3 +553,30 @@ def _stringifier_twins_rule(prog: Program, res: Result) -> None:
         else:
             d = diffs[0]
             res.fail("C01.R13", file=f.file, line=f.node.lineno, qualname=f.qualname, construct=f"{f.qualname} differs from {ref.qualname}", message=f"the two definitions of the Liquid string form disagree: {ref.file} does `{d.sync_text[:90]}`, {f.file} does `{d.async_text[:90]}` - a value prints differently inside a template string (`'n=${{x}}'`) than in an output statement (`{{{{ x }}}}`)", what=what)
+
+
+def _template_string_is_text_rule(prog: Program, res: Result) -> None:
+    """A template string is a string whatever it interpolates: every return of TemplateString.evaluate[_async] is a join of stringified parts."""
+    ts = prog.cls("liquid2.builtin.expressions.TemplateString")
+    n = 0
+    for nm in ("evaluate", "evaluate_async"):
+        m = ts.methods.get(nm)
+        if m is None:
+            raise AnalysisError(f"TemplateString.{nm} vanished")
+        for r in ast.walk(m.node):
+            if not isinstance(r, ast.Return) or r.value is None:
+                continue
+            n += 1
+            v = r.value
+            site = f"{m.file}:{r.lineno} TemplateString.{nm}"
+            what = f"TemplateString.{nm}: `return {norm(v, 60)}` is the concatenation of the stringified parts"
+            ok = isinstance(v, ast.Call) and isinstance(v.func, ast.Attribute) and v.func.attr == "join" and len(v.args) == 1
+            if ok:
+                arg = v.args[0]
+                elt = arg.elt if isinstance(arg, (ast.GeneratorExp, ast.ListComp)) else None
+                ok = isinstance(elt, ast.Call) and (dotted(elt.func) or "").split(".")[-1] in ("_to_liquid_string", "to_liquid_string", "str")
+            if ok:
+                res.ok("C01.R16", site, what, "join of stringified parts")
+            else:
+                res.fail("C01.R16", file=m.file, line=r.lineno, qualname=f"TemplateString.{nm}", construct=f"TemplateString.{nm}: a return that is not the join of stringified parts", message=f"TemplateString.{nm} returns `{norm(v, 70)}`: a template string that is a single `${{…}}` then evaluates to the raw value (an int, a bool, a list), so `\"${{n}}\" == \"5\"`, `| size`, `| default` and `case` see something else than the text that `{{{{ \"${{n}}\" }}}}` prints", what=what)
+    res.floor("C01.R16", "returns of TemplateString.evaluate[_async]", n, 2)
